@@ -32,6 +32,43 @@ def ctor_params(repo, c):
     return out
 
 
+def check_h2(chk, H2, repo, pairs):
+    for c in pairs:
+        e = repo.find_method(c, '__eq__')
+        td = c.methods['to_dict']
+        if e is None or owner_class(e) is None or owner_class(e).fq != c.fq:
+            continue
+        ctor = set(init_fields(repo, c))
+        eqf = method_fields(repo, c, e) & ctor
+        tdf = method_fields(repo, c, td) & ctor
+        chk.instance(H2, f'{c.fq}: eq{sorted(eqf)} to_dict{sorted(tdf)}')
+        for fld in sorted(eqf - tdf):
+            chk.violation(H2, c.module.rel, c.name, f'__eq__ compares {fld}, to_dict does not serialise it',
+                          f'`{fld}` takes part in equality but is lost in to_dict', line=td.node.lineno,
+                          witness=f'from_dict(to_dict(x)) != x for an x with a non-default {fld}; two models differing '
+                                  f'only in {fld} get the same database key')
+        # same view: a non-trivial property named like a compared raw field must not feed to_dict
+        props = prop_field_map(repo, c)
+        raw_eq = {n.attr for n in ast.walk(e.node) if isinstance(n, ast.Attribute) and isinstance(n.value, ast.Name)
+                  and n.value.id in ('self', 'other') and n.attr in ctor}
+        for m in [td] + [x for x in [repo.find_method(c, '_to_dict')] if x]:
+            me = self_name(m)
+            for n in ast.walk(m.node):
+                if isinstance(n, ast.Attribute) and isinstance(n.value, ast.Name) and n.value.id == me \
+                        and n.attr not in ctor and n.attr not in props:
+                    pm = repo.find_method(c, n.attr)
+                    if pm is None or not pm.is_property():
+                        continue
+                    reads = fields_of(repo, c, pm.node, self_name(pm), through_methods=False)
+                    clash = {f_ for f_ in reads if f_ in raw_eq and f_.lstrip('_') == n.attr}
+                    for f_ in sorted(clash):
+                        chk.violation(H2, c.module.rel, m.qualname, f'self.{n.attr} (computed view of {f_})',
+                                      f'to_dict serialises the computed property `{n.attr}` while __eq__ compares the '
+                                      f'raw field `{f_}`', line=n.lineno,
+                                      witness=f'an object whose {f_} is not a fixed point of the property (e.g. '
+                                              f'several elements in non-canonical order): from_dict(to_dict(x)) != x')
+
+
 def run(chk, repo, tier):
     chk.explanation = (
         'H1: for every class with to_dict and from_dict the key set written equals the key set read (incl. helper '
@@ -144,40 +181,7 @@ def run(chk, repo, tier):
                                   'attributes (KeyError or silently dropped attribute)')
 
     # ---------------------------------------------------------------- H2
-    for c in pairs:
-        e = repo.find_method(c, '__eq__')
-        td = c.methods['to_dict']
-        if e is None or owner_class(e) is None or owner_class(e).fq != c.fq:
-            continue
-        ctor = set(init_fields(repo, c))
-        eqf = method_fields(repo, c, e) & ctor
-        tdf = method_fields(repo, c, td) & ctor
-        chk.instance(H2, f'{c.fq}: eq{sorted(eqf)} to_dict{sorted(tdf)}')
-        for fld in sorted(eqf - tdf):
-            chk.violation(H2, c.module.rel, c.name, f'__eq__ compares {fld}, to_dict does not serialise it',
-                          f'`{fld}` takes part in equality but is lost in to_dict', line=td.node.lineno,
-                          witness=f'from_dict(to_dict(x)) != x for an x with a non-default {fld}; two models differing '
-                                  f'only in {fld} get the same database key')
-        # same view: a non-trivial property named like a compared raw field must not feed to_dict
-        props = prop_field_map(repo, c)
-        raw_eq = {n.attr for n in ast.walk(e.node) if isinstance(n, ast.Attribute) and isinstance(n.value, ast.Name)
-                  and n.value.id in ('self', 'other') and n.attr in ctor}
-        for m in [td] + [x for x in [repo.find_method(c, '_to_dict')] if x]:
-            me = self_name(m)
-            for n in ast.walk(m.node):
-                if isinstance(n, ast.Attribute) and isinstance(n.value, ast.Name) and n.value.id == me \
-                        and n.attr not in ctor and n.attr not in props:
-                    pm = repo.find_method(c, n.attr)
-                    if pm is None or not pm.is_property():
-                        continue
-                    reads = fields_of(repo, c, pm.node, self_name(pm), through_methods=False)
-                    clash = {f_ for f_ in reads if f_ in raw_eq and f_.lstrip('_') == n.attr}
-                    for f_ in sorted(clash):
-                        chk.violation(H2, c.module.rel, m.qualname, f'self.{n.attr} (computed view of {f_})',
-                                      f'to_dict serialises the computed property `{n.attr}` while __eq__ compares the '
-                                      f'raw field `{f_}`', line=n.lineno,
-                                      witness=f'an object whose {f_} is not a fixed point of the property (e.g. '
-                                              f'several elements in non-canonical order): from_dict(to_dict(x)) != x')
+    check_h2(chk, H2, repo, pairs)
 
     # ---------------------------------------------------------------- H3
     cs = repo.cls('pharmpy.model.statements.CompartmentalSystem')
